@@ -11,7 +11,11 @@ GenOptNames  == {nA, nA1, nAsB, nABsC, nAuB, n1}
 GenSecNames  == {nA, nE, nAsB, nAuB, nA1}
 GenValues    == {vE, vX, vXY, vSp, vQ, vBQ, vHash, vSemi, vNl, vLong(249), vLong(250), vLong(255)}
 GenValuesT   == GenValues \cup {vLong(254), vLong(256), vLong(65535), vLong(65536), vLong(65537)}
-GenOptNamesT == GenOptNames \cup {nAdB, << <<97, 255>> >>, << <<97, 256>> >>}
-GenSecNamesT == GenSecNames \cup {nAdB, << <<97, 255>> >>, << <<97, 256>> >>}
+\* names with the path separator '.': left out while the open finding C09 name_contains_path_sep
+\* still reproduces (checks/c09.py probes it and sets $AVOID_DOT), so that the rest of the
+\* space is not cut short; seeded documents keep exercising them
+Dotted == IF "AVOID_DOT" \in DOMAIN IOEnv THEN {} ELSE {nAdB}
+GenOptNamesT == GenOptNames \cup Dotted \cup {<< <<97, 255>> >>, << <<97, 256>> >>}
+GenSecNamesT == GenSecNames \cup Dotted \cup {<< <<97, 255>> >>, << <<97, 256>> >>}
 GenDecos     == {DTight, DSpaced, DCom, DBlank, DCrlf}
 =============================================================================
